@@ -25,11 +25,12 @@ if cur.strip() != patch.strip():
     print("WARNING: worktree diff differs from _seed/patch.diff")
 tests = sh("/venv/bin/python -m pytest -q -p no:cacheprovider --timeout=900 2>&1 | tail -1").stdout.strip()
 demo_with = sh("/venv/bin/python _seed/demo.py", timeout=600)
-sh("git stash -q -- src")
+# (git stash is shared between worktrees: revert and re-apply the patch file instead)
+sh("git apply -R _seed/patch.diff")
 try:
     demo_without = sh("/venv/bin/python _seed/demo.py", timeout=600)
 finally:
-    sh("git stash pop -q")
+    sh("git apply _seed/patch.diff")
 ok = "76 passed" in tests and demo_with.returncode == 1 and demo_without.returncode == 0
 print("tests:", tests, "| demo with:", demo_with.returncode, "| without:", demo_without.returncode, "| confirmed:", ok)
 results = {}
